@@ -389,7 +389,17 @@ class SymReal:
         raise EngineUnsupported("float() of a symbolic real")
 
     def __int__(self):
-        raise EngineUnsupported("int() of a symbolic real")
+        # truncation toward zero; the integer is concretised by forking over its feasible values
+        if CUR is None:
+            raise EngineUnsupported("int() of a symbolic real outside a run")
+        tr = tm.ite(tm.ge(self.t, tm.ZERO), tm.floor(self.t), tm.ceil(self.t))
+        return CUR.concretize_int(tr)
+
+    def __trunc__(self):
+        return self.__int__()
+
+    def __round__(self, n=None):
+        raise EngineUnsupported("round() of a symbolic real")
 
     def __bool__(self):
         return bool(SymBool(tm.ne(self.t, tm.ZERO)))
@@ -448,6 +458,12 @@ class SymInt(SymReal):
         return SymInt(r.t) if isinstance(o, (int, SymInt)) and r is not NotImplemented else r
 
     __rmul__ = __mul__
+
+    def __neg__(self):
+        return SymInt(tm.neg(self.t))
+
+    def __floordiv__(self, o):
+        return SymInt(tm.floor(_sdiv(self.t, _t(o))))
 
     def __repr__(self):
         return "SymInt(%s)" % self.t
